@@ -116,10 +116,7 @@ def garble_std_snapshot(garble, garble_flags=(), env_extra=None):
     try:
         if os.path.exists(os.path.join(out, "ok")):
             return os.path.join(out, "gocache")
-        for e in os.listdir(root):
-            p = os.path.join(root, e)
-            if os.path.isdir(p) and len([x for x in os.listdir(root) if os.path.isdir(os.path.join(root, x))]) > 4:
-                shutil.rmtree(p, ignore_errors=True)
+        vlib.evict_cache_entries(root, key)
         shutil.rmtree(out, ignore_errors=True)
         os.makedirs(out)
         proj = Project("gstd-" + key, {"main.go": 'package main\n\nimport (\n\t"encoding/json"\n\t"errors"\n\t"fmt"\n\t"os"\n\t"reflect"\n\t"sort"\n\t"strings"\n\t"sync"\n\t"time"\n)\n\n'
